@@ -552,7 +552,11 @@ def run_tagged(prop, tier, module, consts, fam, dbs_fn, cfgs_fn, rule, extra_ite
     for qi, p in enumerate(queries):
         tag = "/".join(str(x) for x in p["tag"])
         for di, db in enumerate(dbs):
-            chosen = cfgs if tier == "thorough" else [cfgs[(qi + di) % len(cfgs)]]
+            if tier == "thorough":
+                # every configuration for a third of the (query, database) pairs, three rotating ones for the rest
+                chosen = cfgs if (qi + di) % 3 == 0 else [cfgs[(qi + di + j) % len(cfgs)] for j in range(3)]
+            else:
+                chosen = [cfgs[(qi + di) % len(cfgs)]]
             for c in chosen:
                 c = dict(c)
                 chunk = c.pop("_chunk", None)
